@@ -80,6 +80,9 @@ func VerifH_serveGRPC() {
 	if twice {
 		srv.setHdr2 = metadata.MD{"x-h": []string{"h2"}}
 		srv.setTrail2 = metadata.MD{"x-t": []string{"t2"}, "x-b-bin": []string{"\x00\x01"}}
+		// ... and SendHeader called with the same key again: values keep the order of the calls
+		srv.sendHdrFirst = true
+		srv.sendHdrWith = metadata.MD{"x-h": []string{"sent"}}
 		vfCover("metadata-set-twice")
 	}
 	payload := vfBytes(vfLen(2))
@@ -108,7 +111,7 @@ func VerifH_serveGRPC() {
 	xt, ok := w.trailer("X-T")
 	xb, okb := w.trailer("X-B-Bin")
 	if twice {
-		vfCheck(len(xh) == 2 && xh[0] == hv && xh[1] == "h2", "header metadata set in two calls did not reach the client completely and in order")
+		vfCheck(len(xh) == 3 && xh[0] == hv && xh[1] == "h2" && xh[2] == "sent", "header metadata set in several calls (SetHeader, SetHeader, SendHeader) did not reach the client completely and in the order of the calls")
 		vfCheck(ok && len(xt) == 2 && xt[0] == tv && xt[1] == "t2", "trailer metadata set in two calls did not reach the client completely and in order")
 		vfCheck(okb && len(xb) == 2 && (xb[1] == refBase64Encode([]byte{0, 1}, false) || xb[1] == refBase64Encode([]byte{0, 1}, true)), "binary trailer metadata set in two calls did not reach the client completely")
 	} else {
